@@ -36,6 +36,9 @@ pub struct Case {
     /// all four sealing forms, and the export-only AEAD (whose seal/open forms panic) through all eight forms
     #[serde(default)]
     pub errors: bool,
+    /// the caller's RNG hands out exactly the bytes the recipient key pair was derived from (skE = skR, enc = pkR)
+    #[serde(default)]
+    pub rng_is_recipient: bool,
 }
 
 pub struct C14;
@@ -67,21 +70,24 @@ impl Part for C14 {
                     // long messages (a separate code path for large buffers is a classic): one (KDF) per KEM and AEAD
                     let shapes: Vec<(usize, usize)> = if suite.kdf == suite.kem.kdf() && (t || mode == Mode::Base) { [&shapes[..], &[(4096, 3), (65537, 4097)][..]].concat() } else { shapes };
                     let shapes_first = shapes[0];
+                    if suite.kdf == suite.kem.kdf() {
+                        v.push(Case { suite, mode, info_len, pt_len: 13, aad_len: 2, tag: tag + 500_000, boundary: false, empty_bundle: false, sequence: false, odd_identity: false, errors: false, rng_is_recipient: true });
+                    }
                     for (pt_len, aad_len) in shapes {
                         tag += 1;
-                        v.push(Case { suite, mode, info_len, pt_len, aad_len, tag, boundary: false, empty_bundle: false, sequence: false, odd_identity: false, errors: false });
+                        v.push(Case { suite, mode, info_len, pt_len, aad_len, tag, boundary: false, empty_bundle: false, sequence: false, odd_identity: false, errors: false, rng_is_recipient: false });
                         if (pt_len, aad_len) == shapes_first {
-                            v.push(Case { suite, mode, info_len, pt_len: 9, aad_len: 1, tag, boundary: false, empty_bundle: false, sequence: true, odd_identity: false, errors: false });
+                            v.push(Case { suite, mode, info_len, pt_len: 9, aad_len: 1, tag, boundary: false, empty_bundle: false, sequence: true, odd_identity: false, errors: false, rng_is_recipient: false });
                             if mode.has_auth() {
-                                v.push(Case { suite, mode, info_len, pt_len: 9, aad_len: 1, tag, boundary: false, empty_bundle: false, sequence: false, odd_identity: true, errors: false });
+                                v.push(Case { suite, mode, info_len, pt_len: 9, aad_len: 1, tag, boundary: false, empty_bundle: false, sequence: false, odd_identity: true, errors: false, rng_is_recipient: false });
                             }
                         }
                         if mode.has_psk() && (pt_len, aad_len) == shapes_first {
                             // the empty bundle is a legal PSK-mode input of this crate (C15)
-                            v.push(Case { suite, mode, info_len, pt_len: 7, aad_len: 2, tag, boundary: false, empty_bundle: true, sequence: false, odd_identity: false, errors: false });
+                            v.push(Case { suite, mode, info_len, pt_len: 7, aad_len: 2, tag, boundary: false, empty_bundle: true, sequence: false, odd_identity: false, errors: false, rng_is_recipient: false });
                         }
                         if mode == Mode::Base && (pt_len, aad_len) == shapes_first && (t || suite.kdf == suite.kem.kdf()) {
-                            v.push(Case { suite, mode, info_len, pt_len: 5, aad_len: 3, tag, boundary: true, empty_bundle: false, sequence: false, odd_identity: false, errors: false });
+                            v.push(Case { suite, mode, info_len, pt_len: 5, aad_len: 3, tag, boundary: true, empty_bundle: false, sequence: false, odd_identity: false, errors: false, rng_is_recipient: false });
                         }
                     }
                 }
@@ -91,7 +97,7 @@ impl Part for C14 {
             if suite.kem == Kem::X25519 || !suite.aead.can_seal() {
                 for mode in MODES {
                     tag += 1;
-                    v.push(Case { suite, mode, info_len: 6, pt_len: 11, aad_len: 2, tag, boundary: false, empty_bundle: false, sequence: false, odd_identity: false, errors: true });
+                    v.push(Case { suite, mode, info_len: 6, pt_len: 11, aad_len: 2, tag, boundary: false, empty_bundle: false, sequence: false, odd_identity: false, errors: true, rng_is_recipient: false });
                 }
             }
         }
@@ -109,6 +115,9 @@ impl Part for C14 {
         let k = keys(c.suite.kem, c.tag, cfg.seed);
         let info = bytes(Fill::Mix, c.info_len, 10, cfg.seed);
         let mut k = k;
+        if c.rng_is_recipient {
+            k.ikm_e = bytes(Fill::Mix, c.suite.kem.nsk(), c.tag.wrapping_mul(3) + 1, cfg.seed);
+        }
         if c.odd_identity {
             // the public half of another key pair
             k.pk_s = keys(c.suite.kem, c.tag + 77, cfg.seed).pk_s;
